@@ -947,6 +947,12 @@ func main() {
 	emitLits(&l, text, "encoderState", "NeedFlush")
 	emitLits(&l, text, "encoderState", "Flush")
 	emitLits(&l, text, "decoderState", "fetch")
+	emitLits(&l, text, "encoderState", "AppendIndent")
+	emitLits(&l, text, "encoderState", "appendWhitespace")
+	emitLits(&l, text, "encoderState", "reformatValue")
+	emitLits(&l, text, "encoderState", "reformatObject")
+	emitLits(&l, text, "encoderState", "reformatArray")
+	emitLits(&l, wire, "", "ReformatString")
 	emitLits(&l, wire, "", "ParseUint")
 	emitLits(&l, wire, "", "AppendFloat")
 	emitLits(&l, wire, "", "ReformatNumber")
